@@ -259,7 +259,11 @@ fn run_e1(rep: &Report) -> i32 {
             vec!["SPEC is the definition of the property"],
         ),
         "C11" => (
-            ci_models(rep, &all),
+            {
+                let mut v = ci_models(rep, &all);
+                v.extend(defs_named(u::uci_case_dups(), &all, true));
+                v
+            },
             Opts {
                 explore: vec![
                     Explore::Find { anchored: false, earliest: false },
